@@ -16,6 +16,25 @@ pub struct Renderer {
     indent: usize,
 }
 
+/// `raw`: line breaks and tabs are written as they are (a string literal may span lines)
+pub fn escape_string_raw(s: &str, raw: bool) -> String {
+    let mut o = String::from("\"");
+    for ch in s.chars() {
+        match ch {
+            '\n' | '\t' if raw => o.push(ch),
+            '"' => o.push_str("\\\""),
+            '\\' => o.push_str("\\\\"),
+            '\n' => o.push_str("\\n"),
+            '\t' => o.push_str("\\t"),
+            '\r' => o.push_str("\\r"),
+            '\0' => o.push_str("\\0"),
+            c => o.push(c),
+        }
+    }
+    o.push('"');
+    o
+}
+
 pub fn escape_string(s: &str) -> String {
     let mut o = String::from("\"");
     for ch in s.chars() {
@@ -401,7 +420,12 @@ impl Renderer {
             }
             "str" => {
                 let s = e["v"].as_str().unwrap().to_string();
-                self.put(&escape_string(&s));
+                let raw = e["raw"].as_bool().unwrap_or(false)
+                    || match &mut self.rng {
+                        Some(r) => r.chance(1, 3),
+                        None => false,
+                    };
+                self.put(&escape_string_raw(&s, raw));
             }
             "list" | "set" => {
                 let (o, c) = if k == "list" { ("[", "]") } else { ("{", "}") };
